@@ -15,6 +15,9 @@ Parts
   arbitrary  arbitrary text / bytes / pipe-colon-digit soup / v1- and v2-shaped templates with wrong
              signatures / huge or odd length prefixes, under plain and key-versioned secrets -> None, no raise
              (also get_signature_key_version never raises).
+  history    op-lists on ONE key-versioned secrets dict object: sign / decode / replace, delete, add a key version in
+             place / decode with a second dict instance; each decode judged against the dict's current content.
+             Finite sweep of all op sequences of length <= 3 (thorough 4) over 8 ops + Hypothesis op-lists.
   edits      finite enumeration: for N deterministic signed values, at every byte position, every
              substitution and insertion from a 17-byte pool, the deletion and the adjacent transposition
              (quick N=10, thorough N=16000, ~3300 edits per value: "all single-byte edits of N signed values").
@@ -58,6 +61,12 @@ Sensitivity (quick tier, seed 1, scratch copy of /repo/tornado):
       (value b'ab>' = 'YWI+': transposition at the delimiter -> 'YWI|+1700063352|sig') and by
       replays/C23/v1-plus-sign-moved-into-timestamp.json.  The exclusion of F-C23-v1-value-timestamp-move does not
       swallow it: it requires a numerically *changed* timestamp and a creation time < 1e8.
+  M12 v2 decoder memoises a keyed HMAC per (id(secrets dict), key version), never invalidated (round-9 "state carried
+      over" mutant; missed because every case built a fresh dict and decoded once)   caught at seeds 1,2,3 by the finite
+      "history_sweep" part (sign, decode, replace key in place, decode -> retired key still accepted) and by the
+      Hypothesis "history" part -> C23.history_decode.  Generally: one long-lived secrets dict is used for many
+      sign/decode operations and rotated in place (replace / delete / add), a second dict instance lives alongside,
+      and every decode is judged against the current content of the dict it was given.
   pre-fix snapshot 59274db (F11 int() ValueError, F12 dict-secret AssertionError): re-found by the generators
   (swap at the first '|'; dict secret + version-less string) and by replays/C23/F11-*.json, F12-*.json.
 """
@@ -713,12 +722,125 @@ def run_edits(ctx, case):
     ctx.note(case, labels, n_struct > 0)
 
 
-PARTS = {"roundtrip": run_roundtrip, "attack": run_attack, "arbitrary": run_arbitrary, "edits": run_edits,
+# ------------------------------------------------------------------------- histories on one secrets dict
+# A long-lived key-versioned secrets dict (Application settings["cookie_secret"]) is used for many decodes and is
+# rotated IN PLACE (key replaced / deleted / added).  Every decode is judged against the dict's *current* content,
+# independently of what was decoded before.  A second dict object with its own content is alive at the same time.
+H_T0 = 1700000000
+H_K = 31 * 64
+H_NAMES = ["foo", "session", "a|b"]
+hist_secret = st.sampled_from(["one", "two", b"three", "s3cr3t|:", "one ", "ONE"])
+hist_op = st.one_of(
+    st.tuples(st.just("sign"), st.integers(0, 3), st.integers(0, 2), st.sampled_from(["hello", "", b"\x00\xff", "v2"])),
+    st.tuples(st.just("sign"), st.integers(0, 3), st.integers(0, 2), st.sampled_from(["hello", "x"])),
+    st.tuples(st.just("decode"), st.integers(0, 7)),
+    st.tuples(st.just("decode"), st.integers(0, 7)),
+    st.tuples(st.just("decode_other"), st.integers(0, 7)),
+    st.tuples(st.just("replace"), st.integers(0, 3), hist_secret),
+    st.tuples(st.just("delete"), st.integers(0, 3)),
+    st.tuples(st.just("add"), st.integers(0, 5), hist_secret),
+    st.tuples(st.just("replace_other"), st.integers(0, 3), hist_secret),
+)
+history_s = st.fixed_dictionaries({
+    "secrets": st.lists(st.tuples(st.integers(0, 5), hist_secret), min_size=1, max_size=3, unique_by=lambda kv: kv[0]),
+    "ops": st.lists(hist_op, min_size=2, max_size=12),
+})
+
+
+def run_history(ctx, case):
+    live = {kv: sec for kv, sec in case["secrets"]}      # ONE object for the whole history, mutated in place
+    other = dict(live)                                   # a second instance, same start content, its own life
+    signed = []                                          # (signed bytes, key version, key bytes used, name, value bytes)
+    labels = {"history"}
+    mutated = False
+    decoded_before_mutation = False
+    nontrivial = False
+
+    def judge(d, which, i, step):
+        nonlocal nontrivial
+        sv, kv, key, name, val = signed[i % len(signed)]
+        want = val if (kv in d and utf8(d[kv]) == key) else None
+        got = decode(ctx, d, name, sv, H_T0, H_K, detail={"case": case, "step": step})
+        if got != want:
+            ctx.fail("C23.history_decode", {"case": case, "step": step, "dict": which, "current_dict": dict(d), "signed": sv,
+                                            "key_version": kv, "got": got, "want": want})
+        # the key version reported for a value never depends on the dict
+        key_version_never_raises(ctx, sv)
+        if mutated and decoded_before_mutation:
+            nontrivial = True
+            labels.add("decode_after_in_place_rotation")
+            labels.add("retired_key_value" if want is None else "current_key_value")
+
+    for step, op in enumerate(case["ops"]):
+        kind = op[0]
+        keys = sorted(live)
+        if kind == "sign":
+            if not keys:
+                continue
+            kv = keys[op[1] % len(keys)]
+            name = H_NAMES[op[2]]
+            sv = create_signed_value(live, name, op[3], version=2, clock=lambda: H_T0, key_version=kv)
+            val = op[3].encode("utf-8") if isinstance(op[3], str) else op[3]
+            signed.append((sv, kv, utf8(live[kv]), name, val))
+        elif kind in ("decode", "decode_other"):
+            if not signed:
+                continue
+            if kind == "decode":
+                judge(live, "live", op[1], step)
+                if not mutated:
+                    decoded_before_mutation = True
+            else:
+                judge(other, "other", op[1], step)
+                labels.add("two_dicts_alive")
+        elif kind == "replace":
+            if keys:
+                live[keys[op[1] % len(keys)]] = op[2]
+                mutated = True
+                labels.add("op_replace")
+        elif kind == "delete":
+            if keys:
+                del live[keys[op[1] % len(keys)]]
+                mutated = True
+                labels.add("op_delete")
+        elif kind == "add":
+            live[op[1]] = op[2]
+            mutated = True
+            labels.add("op_add")
+        elif kind == "replace_other":
+            ok = sorted(other)
+            if ok:
+                other[ok[op[1] % len(ok)]] = op[2]
+        else:
+            raise AssertionError(kind)
+    # end of history: every value once more against both dicts
+    for i in range(len(signed)):
+        judge(live, "live", i, "final")
+        judge(other, "other", i, "final")
+    ctx.note(case, labels, nontrivial)
+
+
+HIST_ALPHABET = [
+    ("sign", 0, 0, "hello"), ("decode", 0), ("decode", 1), ("replace", 0, "NEW"), ("delete", 0), ("add", 1, "one"),
+    ("add", 2, "two"), ("decode_other", 0),
+]
+
+
+def history_sweep(maxlen):
+    """Every op sequence of length <= maxlen over 8 ops on the dict {1: "one"} (first op is always a sign)."""
+    import itertools
+    for n in range(1, maxlen + 1):
+        for seq in itertools.product(HIST_ALPHABET, repeat=n):
+            yield {"secrets": [(1, "one")], "ops": [("sign", 0, 0, "hello")] + list(seq)}
+
+
+PARTS = {"history": run_history, "history_sweep": run_history, "roundtrip": run_roundtrip, "attack": run_attack, "arbitrary": run_arbitrary, "edits": run_edits,
          "main": run_attack}
 
 
 def main(ctx):
     ctx.run_replays(PARTS)
+    ctx.enumerate(history_sweep(4 if ctx.thorough else 3), run_history, name="history_sweep")
+    ctx.explore(history_s, run_history, ctx.n(500, 60000), name="history")
     ctx.explore(roundtrip_s, run_roundtrip, ctx.n(600, 60000), name="roundtrip")
     ctx.explore(attack_case_s, run_attack, ctx.n(2500, 400000), name="attack")
     ctx.explore(arbitrary_s, run_arbitrary, ctx.n(1500, 200000), name="arbitrary")
